@@ -470,7 +470,7 @@ def check_property(pid, tier, repo, scratch, seed):
         'coverage': {
             'obligations': len(obligations), 'discharged': discharged,
             'checker_cmd': ' ; '.join(checker_cmds),
-            'trusted_base': pm.get('trusted_base', []) + ['Verus 0.2026.09.13 + z3', 'rustc', 'extractor transformations T0-T24 (counted below)'],
+            'trusted_base': pm.get('trusted_base', []) + ['Verus 0.2026.09.13 + z3', 'rustc', 'extractor transformations T0-T25 (counted below)'],
             'samples': [{'obligation': o['function'], 'mode': o['mode'], 'discharged': o['ok'], 'smt_ms': o.get('smt_ms')} for o in obligations[:40]],
             'functions_under_contract': sorted(set(x for u in units for x in u['functions_under_contract'])),
             'backends': sorted(set(['z3 via Verus'] * bool(units) + [b for e in extra for b in e.get('backends', [])])),
